@@ -276,8 +276,18 @@ func checkC10(c *Ctx) {
 			}
 		}
 	}
+	// length sweep: the fingerprint consumes 12-byte blocks and mixes the length in, so every
+	// residue and the byte/word boundaries of the length are exercised, as text and as meaning.
+	for _, L := range append(seq(0, 64), 127, 128, 129, 255, 256, 257, 300, 511, 512, 513, 1023, 1024, 1025, 4095, 4096, 4097, 65535, 65536, 65537) {
+		txt := strings.Repeat("abcdefghijk ", L/12+1)[:L]
+		if L > 0 {
+			one([]MPart{{Kind: "text", Text: "x" + strings.TrimSpace(txt[1:]) + "y"}}, "")
+			one([]MPart{{Kind: "text", Text: "m"}}, strings.ReplaceAll(txt, " ", "_"))
+			one([]MPart{{Kind: "text", Text: "x" + strings.TrimSpace(txt[1:]) + "y"}, alpha[10]}, "")
+		}
+	}
 	// plurals: case sets over {0,1,2}, bodies from a small alphabet, placeholders colliding with the plural variable
-	small := []MPart{alpha[0], alpha[10], alpha[11], alpha[3], alpha[14], alpha[16]}
+	small := []MPart{alpha[0], alpha[10], alpha[11], alpha[3], alpha[14], alpha[16], alpha[12], alpha[13]}
 	var bodies [][]MPart
 	for _, a := range small {
 		bodies = append(bodies, []MPart{a})
@@ -288,7 +298,7 @@ func checkC10(c *Ctx) {
 	for _, pv := range []*E{vr("a"), vr("n"), vr("x"), vr("b", Acc{Kind: "dot", Key: "x"}), call("length", vr("l"))} {
 		for mask := 0; mask < 8; mask++ {
 			for bi, db := range bodies {
-				if mask != 2 && bi%5 != 0 && !c.Thorough() {
+				if mask != 2 && bi%9 != 0 && !c.Thorough() {
 					continue
 				}
 				p := MPart{Kind: "plural", E: pv, Default: db}
@@ -334,4 +344,12 @@ func refFingerprintInput(parts []MPart) string {
 		nm[u.part] = u.name
 	}
 	return refContent(parts, nm, false)
+}
+
+func seq(a, b int) []int {
+	var out []int
+	for i := a; i <= b; i++ {
+		out = append(out, i)
+	}
+	return out
 }
